@@ -1,6 +1,7 @@
 package props
 
 import (
+	"bytes"
 	crand "crypto/rand"
 	"crypto/sha512"
 	"encoding/hex"
@@ -335,6 +336,37 @@ func C05(c *core.Ctx) {
 				if got != want {
 					c.Violation("judge-go", "c05-validate-pong", fmt.Sprintf("ValidatePongDigest = %v, want %v (variant %d)", got, want, k), map[string]string{"key": hx(hc.key)})
 				}
+			}
+		}
+		// the helpers only READ what they are given: salt, nonce and key carved out of one backing array (with
+		// live data behind each of them, as a caller that parses a packet in place has it) come back unchanged
+		// and give the digest of the formula
+		{
+			block := make([]byte, 0, 4096)
+			block = append(block, salt...)
+			sl := block[:len(salt)]
+			block = append(block, hc.nonce...)
+			nl := block[len(salt) : len(salt)+len(hc.nonce)]
+			block = append(block, hc.key...)
+			kl := block[len(salt)+len(hc.nonce):]
+			block = append(block, bytes.Repeat([]byte{0x5a}, 600)...)
+			snap := append([]byte{}, block...)
+			p3, e3 := protocol.NewPing(string(hc.chost), kl, sl, nl)
+			okFormula := e3 == nil && p3.SharedKeyHexDigest == sha512hex(salt, hc.chost, hc.nonce, hc.key)
+			v3 := e3 == nil && protocol.ValidatePingDigest(p3, kl, nl) == nil
+			var okPong bool
+			if e3 == nil {
+				p3.SharedKeySalt = sl
+				if pg, e := protocol.NewPong(true, "", string(hc.shost), kl, &protocol.Helo{MessageType: "HELO", Options: &protocol.HeloOpts{Nonce: nl}}, p3); e == nil {
+					okPong = pg.SharedKeyHexDigest == sha512hex(salt, hc.shost, hc.nonce, hc.key) && protocol.ValidatePongDigest(pg, kl, nl, sl) == nil
+				}
+			}
+			c.Eval()
+			c.Hist("helpers on arguments carved from one backing array")
+			if !bytes.Equal(block[:len(snap)], snap) {
+				c.Violation("judge-go", "c05-args-written", "a handshake helper wrote into the memory of its arguments (salt / nonce / key share a backing array with spare capacity)", map[string]string{"key": hx(hc.key), "salt": hx(salt)})
+			} else if !okFormula || !v3 || !okPong {
+				c.Violation("judge-go", "c05-newping", fmt.Sprintf("with salt, nonce and key carved from one backing array: NewPing formula ok=%v, ValidatePingDigest ok=%v, NewPong/ValidatePongDigest ok=%v", okFormula, v3, okPong), map[string]string{"key": hx(hc.key)})
 			}
 		}
 		if _, err := protocol.NewPong(true, "", "h", hc.key, &protocol.Helo{MessageType: "HELO"}, ping); err == nil {
